@@ -77,6 +77,8 @@ def functions():
         sh = shapes(r)
         ax = None if (not sh or r.random() < .3) else int(r.integers(-len(sh), len(sh)))
         k = int(r.integers(1, 4))
+        if r.random() < .2:     # the axis argument left out: numpy then repeats the flattened array
+            return [P(r, sh)], lambda a: numpoly.repeat(a, k), lambda i: numpy.repeat(i, k), {"repeats": k, "axis": "omitted"}
         return [P(r, sh)], lambda a: numpoly.repeat(a, k, axis=ax), lambda i: numpy.repeat(i, k, axis=ax), {"repeats": k, "axis": ax}
     one("repeat", repeat)
 
@@ -214,7 +216,7 @@ def flatten_results(res):
 def run_one(ctx, name, mk, rng, idx, monitor, pending):
     structs, impl, npf, info = mk(rng)
     case = {"kind": "c09", "function": name, "operands": structs, "args": {k: (v if isinstance(v, (int, float, str, bool, type(None), list)) else repr(v)) for k, v in info.items()}, "seed_index": idx}
-    tags = [f"function:{name}"]
+    tags = [f"function:{name}"] + (["default-axis"] if info.get("axis") == "omitted" else [])
     iarrs = index_arrays(structs)
     try:
         expect = flatten_results(npf(*iarrs))
